@@ -927,9 +927,12 @@ class Vector():
 
 	def _unary_operation(self, op_func, op_name: str):
 		"""Helper function to handle unary operations on each element."""
+		# None propagates (like the binary operators); the result dtype is inferred
+		# from the result values (-True is the int -1, not a bool)
+		result_values = tuple(None if x is None else op_func(x) for x in self)
 		return Vector(
-			tuple(op_func(x) for x in self),
-			dtype=self._dtype,
+			result_values,
+			dtype=infer_dtype(result_values),
 			name=self._name,
 			as_row=self._display_as_row
 		)
